@@ -41,6 +41,8 @@ def ValidROp (root : List Nat) (r : RSpec) : ROp → Prop
   | .replay drop mid (some (l, n)) news => ReplayOK root r.sp drop mid l n news
   | .replay drop mid none news => ReplayOK root r.sp drop mid r.sp.st.log r.sp.st.notes news
   | .squash l n ys => SquashOK r.sp l n ys
+  | .switchCarry l n h => SwitchOK root r.sp l n h
+  | .switchMerge l n h ys => SwitchMergeOK root r.sp l n h ys
   | .aborted => True
   | .stashPush => False
   | .stashPop _ => False
@@ -66,6 +68,8 @@ theorem rspecStep_inv (root : List Nat) (r : RSpec) (op : ROp) (h : RInv root r.
     | none => exact h.replay drop mid _ _ news hv
     | some ln => obtain ⟨l, n⟩ := ln; exact h.replay drop mid l n news hv
   | squash l n ys => exact h.squash l n ys hv
+  | switchCarry l n hd => exact h.switchCarry l n hd hv
+  | switchMerge l n hd ys => exact h.switchMerge l n hd ys hv
   | aborted => exact h
 
 theorem rspecRun_inv (root : List Nat) (r : RSpec) (ops : List ROp) (h : RInv root r.sp)
@@ -102,7 +106,8 @@ theorem rspecRun_st (r : RSpec) (ops : List ROp) :
 
 /-- **blame follows the code.** From a clean repository, after any valid sequence of edits,
     checkpoints, staging, commits, amends, soft/mixed resets, rebases / cherry-picks (replays),
-    squash preparations and aborted operations, blame at HEAD reports for every line of HEAD
+    squash preparations, branch switches carrying uncommitted work (plain and `-m`) and aborted
+    operations, blame at HEAD reports for every line of HEAD
     exactly its ghost author: session `s` iff `s` made the last substantive change to it. -/
 theorem blame_matches_ghost (root : List Nat) (g0 : Nat → Author) (hnd : root.Nodup)
     (hroot : ∀ y ∈ root, g0 y = none) (ops : List ROp)
